@@ -31,6 +31,10 @@ func (p *Parser) GetCommitment(opBytes []byte) (string, error) {
 
 	switch op.Type { //nolint:exhaustive
 	case operation.TypeUpdate:
+		if op.Delta == nil {
+			return "", fmt.Errorf("get commitment - missing delta")
+		}
+
 		return op.Delta.UpdateCommitment, nil
 
 	case operation.TypeDeactivate:
